@@ -17,6 +17,10 @@ pub enum Op {
     Commit,
     Reopen,
     Crash,
+    /// Memvid::vacuum (table effect = a commit)
+    Vacuum,
+    /// close, Memvid::doctor(path, options: rebuild flags from the bits, vacuum bit), reopen (table effect = close + reopen)
+    Doctor(u8),
 }
 
 pub fn payload_bytes(kind: &PayloadKind, size: usize, tag: u64) -> Vec<u8> {
@@ -57,6 +61,7 @@ pub struct Driver {
     pub last_tag: u64,
     /// set when a reopen failed: the history cannot continue
     pub open_error: Option<String>,
+    pub last_doctor: Option<String>,
 }
 
 pub struct StepObs {
@@ -76,7 +81,7 @@ impl Driver {
         let dir = tempfile::tempdir().expect("tempdir");
         let path = dir.path().join("m.mv2");
         let mem = Memvid::create(&path).expect("create");
-        Driver { path, _dir: dir, mem: Some(mem), tags: HashMap::new(), next_tag: 1000, last_tag: 0, open_error: None }
+        Driver { path, _dir: dir, mem: Some(mem), tags: HashMap::new(), next_tag: 1000, last_tag: 0, open_error: None, last_doctor: None }
     }
     pub fn mem(&mut self) -> &mut Memvid { self.mem.as_mut().unwrap() }
 
@@ -149,6 +154,26 @@ impl Driver {
                 let _ = pend_before;
                 op_term = T::C("OCommit", vec![T::N(extra as u128)]);
             }
+            Op::Vacuum => {
+                if let Err(e) = self.mem().vacuum() { ok = false; errk = 9; eprintln!("vacuum failed: {}", e); }
+                let extra = memvid_core::verif_hooks::wal_stats(self.mem()).3 - wal_seq_before;
+                op_term = T::C("OCommit", vec![T::N(extra as u128)]);
+            }
+            Op::Doctor(bits) => {
+                let m = self.mem.take().unwrap();
+                drop(m);
+                let opts = memvid_core::types::DoctorOptions { rebuild_time_index: bits & 1 != 0, rebuild_lex_index: bits & 2 != 0, rebuild_vec_index: bits & 4 != 0, vacuum: bits & 8 != 0, dry_run: false, quiet: true };
+                let rep = std::panic::catch_unwind(|| Memvid::doctor(&self.path, opts));
+                match rep {
+                    Ok(Ok(r)) => { self.last_doctor = Some(format!("{:?}", r.status)); }
+                    Ok(Err(e)) => { self.last_doctor = Some(format!("error: {}", e)); }
+                    Err(_) => { self.last_doctor = Some("panic".to_string()); }
+                }
+                match Memvid::open(&self.path) {
+                    Ok(m) => { let newseq = memvid_core::verif_hooks::wal_stats(&m).3; self.mem = Some(m); op_term = T::C("ODoctor", vec![T::N(newseq as u128)]); }
+                    Err(e) => { self.open_error = Some(format!("{}", e)); return self.dead_obs(T::C("ODoctor", vec![T::N(0)])); }
+                }
+            }
             Op::Reopen => {
                 let m = self.mem.take().unwrap();
                 drop(m);
@@ -169,7 +194,7 @@ impl Driver {
         let next_after = self.mem().next_frame_id();
         let fc = self.mem().frame_count() as u64;
         let res = if !ok { T::C("Err", vec![T::N(errk)]) } else {
-            match op { Op::Commit | Op::Reopen | Op::Crash => T::C("Ok", vec![T::N(0)]), _ => T::C("Ok", vec![T::N(seq as u128)]) }
+            match op { Op::Commit | Op::Reopen | Op::Crash | Op::Vacuum | Op::Doctor(_) => T::C("Ok", vec![T::N(0)]), _ => T::C("Ok", vec![T::N(seq as u128)]) }
         };
         let auto_committed = matches!(op, Op::Put { .. } | Op::Update { .. } | Op::Delete { .. }) && memvid_core::verif_hooks::wal_stats(self.mem()).1 == 0 && ok;
         StepObs { op_term, out_term: T::Tup(vec![res, T::N(fc as u128), T::N(next_after as u128)]), ok, seq, next_before, next_after, auto_committed }
@@ -196,6 +221,7 @@ impl Driver {
             let payload = self.mem().frame_canonical_payload(id).unwrap_or_else(|e| format!("<<read error {}>>", e).into_bytes());
             let tag = self.tags.get(blake3::hash(&payload).as_bytes()).cloned().unwrap_or(u64::MAX / 2);
             if tag == u64::MAX / 2 && std::env::var("MV_DEBUG").is_ok() { eprintln!("UNKNOWN CONTENT frame {} role {:?} len {} plen {} enc {:?} manifest {} head {:?}", id, f.role, payload.len(), f.payload_length, f.canonical_encoding, f.chunk_manifest.is_some(), String::from_utf8_lossy(&payload[..payload.len().min(60)])); }
+            let tag = if f.status == FrameStatus::Active { tag } else { 0 };
             rows.push(frame_term(&f, tag));
             frames.push(f);
         }
